@@ -36,8 +36,32 @@ def bounded_tasks():
                 bound="stems over {a,b,1,2} up to length 3, n <= 12", cases=n, seconds=time.time() - t1, backend="enumeration")
         if clash:
             r2.replay = {"confirmed": True, "input": clash}
-        return [r, r2]
+        nq, qclash = c10.quote_lemma()
+        r3 = OR(id=f"{PROP}.Bd.lemma.quote_injective", status=REFUTED if qclash else PROVED, kind="Bd", role="bounded", target="urllib.parse.quote (assumed library lemma)",
+                desc="quote is injective and never yields '#': the lemma behind 'distinct identifiers give distinct anchors'", bound="words over 13 characters up to length 3", cases=nq,
+                backend="enumeration")
+        if qclash:
+            r3.replay = {"confirmed": True, "input": qclash}
+        t2 = time.time()
+        sl = c10.source_links()
+        r4 = OR(id=f"{PROP}.Bd.site.source_file_links", status=REFUTED if sl else PROVED, kind="Bd", role="bounded", target="ford.main (incl_src)",
+                desc="the 'Source File' link of every entity page exists and serves the entity's own source file (capitalised file name, two directories)", bound="1 project", cases=1,
+                seconds=time.time() - t2, backend="enumeration")
+        if sl:
+            r4.replay, r4.witness = sl, sl["input"]
+        return [r, r2, r3, r4]
     return [Task(f"{PROP}.Bd", PROP, "bounded", run)]
+
+
+def _anchor():
+    from bounded import c10
+    from contracts import names
+    c = names.anchor(PROP)
+    c.search_fn = c10.search
+    return c
+
+
+_anchor.__name__ = "anchor"
 
 
 def src_copy_task():
@@ -71,13 +95,49 @@ def src_copy_task():
             r.replay = {"confirmed": clash, "input": {"files": files}, "actual": f"both copies go to src/{proj.files[0].name}" if clash else names_,
                         "expected": "two different destination files", "how": "Project(...) on two source directories holding x.f90"}
             r.known = "C10-src-basename"
-        return [r]
+        return [r] + link_copy_agreement(var, dest)
     return Task(f"{PROP}.S.src_copy", PROP, "ford.output.Documentation.writeout", run)
+
+
+def link_copy_agreement(var, dest):
+    """the pages link to the raw source as `src/<entity.filename>`; the copy must be written under that very name, or the link serves nothing / another file"""
+    import os, re
+    tdir = os.path.join(os.path.dirname(loader.module_path("ford.output")), "templates")
+    exprs = []
+    for name in sorted(os.listdir(tdir)):
+        if name.endswith(".html"):
+            for m in re.finditer(r"/src/\{\{\s*([^}]*?)\s*\}\}", open(os.path.join(tdir, name), encoding="utf-8").read()):
+                exprs.append((name, m.group(1)))
+    oid = f"{PROP}.S.writeout.src_copy.written_under_the_name_the_pages_link_to"
+    if not exprs:
+        return [OR(id=oid, status=UNKNOWN, kind="S", role="post", backend="ast+template", target="ford.output.Documentation.writeout", detail="no src/ link found in the templates")]
+    # what the template expression denotes: <entity>.filename is the property FortranBase.filename = self.source_file.name
+    linked = set()
+    for tname, ex in exprs:
+        attr = ex.split(".")[-1]
+        if attr == "filename":
+            prop = loader.find_def("ford.sourceform", "FortranBase.filename")
+            rets = [ast.unparse(n.value) for n in ast.walk(prop) if isinstance(n, ast.Return)]
+            linked.add(rets[0].replace("self.source_file.", "") if len(rets) == 1 and rets[0].startswith("self.source_file.") else f"?{rets}")
+        else:
+            linked.add(attr)
+    last = dest
+    # the last path component of the destination
+    comp = ast.unparse(dest.right) if isinstance(dest, ast.BinOp) else ast.unparse(dest)
+    written = comp.replace(f"{var}.", "") if comp.startswith(f"{var}.") else f"?{comp}"
+    ok = linked == {written}
+    r = OR(id=oid, status=PROVED if ok else REFUTED, kind="S", role="post", backend="ast+template", target="ford.output.Documentation.writeout / templates",
+           desc=f"the raw source of a file is written to src/<{written}> and the pages link to src/<{', '.join(sorted(linked))}> of the entity's source file: the same attribute")
+    if not ok:
+        r.witness = {"written as": comp, "linked as": exprs}
+        from bounded import c10
+        r.replay = c10.source_links()
+    return [r]
 
 
 def build(tier, seed):
     set_tier(tier)
-    tasks = [a_task(PROP, _get_name), src_copy_task()] + bounded_tasks()
+    tasks = [a_task(PROP, _get_name), a_task(PROP, _anchor), src_copy_task()] + bounded_tasks()
     meta = {
         "trusted_base": TRUSTED_BASE,
         "assumptions": PYVC_ASSUMPTIONS + [
